@@ -37,7 +37,12 @@ func (fr *Frame) callValue(in ssa.CallInstruction, c *ssa.CallCommon, fv Val, ar
 	// call-site assertions attached by the contract of the function under verification
 	if fr.top && ex.fc != nil && len(ex.fc.CallAsserts) > 0 {
 		site := fmt.Sprintf("%s#%d", name, fr.callOrd[in])
-		if cls := ex.fc.CallAsserts[site]; len(cls) > 0 {
+		// "callee#*" attaches a clause to every call of the callee in this function (also to calls added later)
+		cls := append(append([]Clause{}, ex.fc.CallAsserts[site]...), ex.fc.CallAsserts[name+"#*"]...)
+		if len(ex.fc.CallAsserts[name+"#*"]) > 0 {
+			ex.usedAsserts[name+"#*"] = true
+		}
+		if len(cls) > 0 {
 			cenv := fr.topEnv(fr.st)
 			cenv.old = ex.entry
 			if lc := fr.innermostLoopCtx(in.Block()); lc != nil {
